@@ -264,7 +264,14 @@ def corrupt(D, wants, i, prev_idx, junk, allowed):
     if len(flat) >= 3 and not flat[0].isspace() and flat[0] != '.':
         tail = flat[-min(4, len(flat) - 1):]
         cand = flat[:1] + '...' + tail + '...' + tail + '\n'
-        if '\n\n' not in cand and not any(_ell_matches(opt, cand) for opt in allowed | {w}):
+        # the want may legitimately match any trailing portion of the output accumulated since the previous want:
+        # every line-level suffix of every allowed reading is tried (a superset of the statement-level portions)
+        readings = set()
+        for opt in allowed | {w}:
+            ol = opt.rstrip('\n').split('\n')
+            for j in range(len(ol)):
+                readings.add('\n'.join(ol[j:]))
+        if '\n\n' not in cand and not any(_ell_matches(opt, cand) for opt in readings):
             dup = cand
             kinds.append('ellipsis_dup')
     kind = D.choice(kinds)
